@@ -1164,7 +1164,7 @@ func fmtVal(x float64, form int) string {
 
 func Gen(t *rapid.T) Case {
 	var c Case
-	class := rapid.SampledFrom([]string{"small", "small", "small", "medium", "medium", "medium", "large", "tiny", "tiny", "wide"}).Draw(t, "class")
+	class := rapid.SampledFrom([]string{"small", "small", "medium", "medium", "medium", "medium", "large", "large", "tiny", "wide"}).Draw(t, "class")
 	c.Gen = class
 	ncfg := rapid.SampledFrom([]int{2, 2, 2, 2, 2, 2, 1, 3, 3, 4}).Draw(t, "ncfg")
 	nbench := rapid.IntRange(1, 8).Draw(t, "nbench")
@@ -1207,6 +1207,8 @@ func Gen(t *rapid.T) Case {
 	c.Order = rapid.SampledFrom([]string{"", "", "name", "delta", "delta", "rname", "rdelta", "rrdelta"}).Draw(t, "order")
 	c.GeoMean = rapid.Bool().Draw(t, "geomean")
 	c.NoRange = rapid.Bool().Draw(t, "norange")
+	allowMissing := rapid.IntRange(0, 9).Draw(t, "allowmissing") < 5
+	allowRepeat := rapid.IntRange(0, 9).Draw(t, "allowrepeat") < 3
 
 	// plans per (benchmark, unit)
 	plans := map[[2]int]*plan{}
@@ -1226,6 +1228,9 @@ func Gen(t *rapid.T) Case {
 			p.spread = rapid.SampledFrom([]float64{0.001, 0.01, 0.01, 0.05, 0.05, 0.3}).Draw(t, "spread")
 			p.grid = rapid.IntRange(1, 12).Draw(t, "grid")
 			p.form = rapid.IntRange(0, 3).Draw(t, "form")
+			if p.form == 0 && p.base < 1000 && p.kind == 0 {
+				p.form = 2
+			}
 			if p.kind == 3 {
 				p.form = 0
 				p.base = math.Round(p.base)
@@ -1241,7 +1246,7 @@ func Gen(t *rapid.T) Case {
 		var x float64
 		switch p.kind {
 		case 0:
-			x = p.base * p.eff[ci] * (1 + p.spread*float64(rapid.IntRange(-1000, 1000).Draw(t, "noise"))/1000)
+			x = p.base * p.eff[ci] * (1 + p.spread*float64(rapid.IntRange(-100000, 100000).Draw(t, "noise"))/100000)
 		case 1:
 			x = p.base * p.eff[ci]
 		case 2:
@@ -1274,7 +1279,7 @@ func Gen(t *rapid.T) Case {
 			cf.Items = append(cf.Items, Item{K: "l", Key: "goos", Val: "linux"})
 		}
 		tab := rapid.Bool().Draw(t, "tab")
-		empty := ncfg >= 2 && rapid.IntRange(0, 39).Draw(t, "emptycfg") == 0
+		empty := allowMissing && ncfg >= 2 && rapid.IntRange(0, 39).Draw(t, "emptycfg") == 0
 		for pk := 0; pk < npkg && !empty; pk++ {
 			if npkg > 1 || rapid.Bool().Draw(t, "pkglabel") {
 				cf.Items = append(cf.Items, Item{K: "l", Key: "pkg", Val: fmt.Sprintf("p%d", pk+1)})
@@ -1290,15 +1295,15 @@ func Gen(t *rapid.T) Case {
 				order = seq(nbench)
 			}
 			for _, bi := range order {
-				if ncfg >= 2 && rapid.IntRange(0, 7).Draw(t, "dropbench") == 0 {
+				if allowMissing && ncfg >= 2 && rapid.IntRange(0, 7).Draw(t, "dropbench") == 0 {
 					continue
 				}
-				if npkg > 1 && rapid.IntRange(0, 3).Draw(t, "notinpkg") == 0 {
+				if allowMissing && npkg > 1 && rapid.IntRange(0, 3).Draw(t, "notinpkg") == 0 {
 					continue
 				}
 				var us []int
 				for ui := range units {
-					if len(units) > 1 && rapid.IntRange(0, 11).Draw(t, "dropunit") == 0 {
+					if allowMissing && len(units) > 1 && rapid.IntRange(0, 11).Draw(t, "dropunit") == 0 {
 						continue
 					}
 					us = append(us, ui)
@@ -1353,7 +1358,9 @@ func Gen(t *rapid.T) Case {
 				cf.Items = append(cf.Items, it)
 				switch rapid.IntRange(0, 39).Draw(t, "extra") {
 				case 0: // the same line again
-					cf.Items = append(cf.Items, it)
+					if allowRepeat {
+						cf.Items = append(cf.Items, it)
+					}
 				case 1:
 					cf.Items = append(cf.Items, Item{K: "n", Text: rapid.SampledFrom(noiseTexts).Draw(t, "noisetext")})
 				}
